@@ -10,8 +10,19 @@
 * correspondence with M-Follow (lean/DefconModel/Follow.lean): for operations on a layer's glyphs and components the
   model is started from the abstraction of the layer (names -> glyph objects, outlines, components and what they
   observe) and must predict which components post Component.BaseGlyphDataChanged and what they observe afterwards;
+* correspondence with M-OrderNotify (lean/DefconModel/OrderNotify.lean = M-GlyphOrder + the post of `_set_glyphOrder`):
+  for every operation that goes through the font or a layer (newGlyph, insertGlyph, del, a glyph renamed,
+  font.glyphOrder = ...) the model is started from the stored order and the layers' glyph names and must predict the
+  deliveries of Font.GlyphOrderChanged (old, new, stored value at delivery) and the stored order afterwards;
+* correspondence with M-Geom as C08 reads it (`(winding ...)` lines): for reverse() / clockwise = v on a contour of
+  move / line points with integer coordinates the model must predict `clockwise` before, "the area is zero",
+  `clockwise` after and the points after;
+* the getter table (which getter a notification's old / new value talks about) is data of the Lean model
+  (lean/DefconModel/NotifGetters.lean); the observers of c08_world are built from the harness's copy, which is
+  compared with the model's on every run (`(getter-table)`, first line of the fixed history);
 * `extract`: lean/DefconModel/Gen/NotifNames.lean (documented / posted names per class, statement-order
-  skeletons of every method that posts, holds or releases) regenerated from the AST on every run.
+  skeletons of every method that posts, holds or releases, the data keys of every postNotification) regenerated
+  from the AST on every run.
 """
 import copy
 import os
@@ -37,12 +48,19 @@ RULE = ("histories of 4-50 operations on a generated font (built in memory / loa
         "scripted scenarios at known positions (margins with and without vertical origin, undo of "
         "a delete, rejected insert of every kind of identifier clash, rename away and back, delete then re-create under the old name, clear-all, layer default/order/"
         "rename/delete, user hold brackets, edit-read-save, image and layer colour, contour reversal, dict items, "
-        "image set, font guidelines, a component whose base glyph's name changes hands: replaced by newGlyph / insertGlyph / "
+        "image set, one image file name through absent / present / scheduled for deletion / set again with the deleted "
+        "or other data, with and without a save in between; a font that stores a glyph order while glyphs are created, "
+        "renamed (also onto taken names), deleted (also the last copy across layers) and inserted over names; contours "
+        "without area (lone point, open and closed two-point contours, collinear points, symmetric figure eight / bow "
+        "tie, a path back over itself; about a tenth of all inserted contours) reversed and given a direction; "
+        "font guidelines, a component whose base glyph's name changes hands: replaced by newGlyph / insertGlyph / "
         "another glyph renamed onto it, deleted and re-created, renamed away and back - then edited) plus one fixed "
         "history that visits every recorded call site; every delivery is "
         "recorded by an early and a late observer that evaluate the getter inside the callback; relayed notifications "
         "(Component.BaseGlyphDataChanged, Layer.GlyphNameChanged, Layer.GlyphUnicodesChanged) are demanded whenever the "
-        "public API shows their trigger; non-trivial = at "
+        "public API shows their trigger, and so are Font.GlyphOrderChanged (whenever font.glyphOrder answers differently "
+        "after an operation than before it) and the ImageSet add / delete / change announcements (from what `in` and "
+        "`[]` answer before and after); non-trivial = at "
         "least one payload delivery AND one will delivery; distinct = distinct (font, history)")
 ASSUMPTIONS = [
     "under USER holds only the old value is judged against the values the getter had inside the bracket; 'value when "
@@ -60,6 +78,11 @@ ASSUMPTIONS = [
     "unreleased (the assignments and insertGlyph release it in a finally clause since 67bac07), the harness "
     "releases it after the failed call",
     "python asserts enabled (no -O)",
+    "Font.GlyphOrderChanged is demanded for operations that go through the font or its layers; a direct write into "
+    "font.lib (lib['public.glyphOrder'] = ..., lib.clear(), lib.update()) is an operation of the Lib object, for which "
+    "Font documents nothing: not judged",
+    "the image life cycle is judged on `name in images` and on the digest of the data `images[name]` answers (for an "
+    "image that is not loaded yet: the bytes of the file in the UFO, read without defcon)",
     "notifications sent while objects are CREATED by the operation (lazy loading, instantiateAnchor(dict), "
     "copyDataFromGlyph's new objects) have no 'before': only their new value is judged",
     "sentence 3 for Component.BaseGlyphDataChanged reads the class docstring's bare list as 'posted when the data of "
@@ -71,7 +94,11 @@ ASSUMPTIONS = [
     "C10's subject, not judged here",
 ]
 TRUSTED = [
-    "harness/c08_world.py: PAYLOAD / WILL tables say which public getter each notification talks about",
+    "which public getter each notification talks about: lean/DefconModel/NotifGetters.lean (proved against the data "
+    "keys of every postNotification of the sources and against the catalogue); harness/c08_world.py builds its "
+    "observers from its copy GETTERS (compared with the model's table on every run) by `getter_from` (attribute path "
+    "/ item access); the WILL table's membership observations (which container a will's subject enters or leaves) "
+    "stay in the harness",
     "harness/c08_model.py: abstraction of an object's state into the model's store (through getters; peeks at "
     "_image, _scheduledForDeletion, _shallowLoadedContours, layer._glyphs avoid triggering lazy creation / loading) and "
     "value tokens (equal token <=> Python ==); for M-Follow: what a component observes is read through the public "
@@ -81,8 +108,12 @@ TRUSTED = [
     "(receiver rooted at self/super, observation wiring excluded)",
     "facts the model takes as arguments because they live outside the object's store: duplicate-identifier / "
     "ownership rejections (computed by the harness from the incoming object's own identifiers - twice the same one "
-    "included - and the container's public `identifiers`), fontTools' fontinfo validation, zero-area contours, image "
-    "digests",
+    "included - and the container's public `identifiers`), fontTools' fontinfo validation, image digests; 'the "
+    "contour's area is zero' is such an argument too, but for contours of move / line points with integer coordinates "
+    "it is also computed by M-Geom from the points and compared (winding lines; `winding_payload_truth` proves the "
+    "entry right for every valid contour given the geometric value)",
+    "the image set's names scheduled for deletion are read from the private `_scheduledForDeletion` (no public API "
+    "shows them) for the model's pre-state; the direct oracle uses `in` / `fileNames` / `[]` only",
     "M-Follow is compared operation by operation from the implementation's own pre-state for: Glyph.name=, "
     "Layer.newGlyph / insertGlyph / __delitem__, insertComponent / removeComponent, Component.baseGlyph= and every "
     "other operation after which exactly one glyph's outline differs; operations that also attach or detach other "
@@ -397,6 +428,86 @@ def relay_oracle(op, status, before, after, members, events, stats):
     return out
 
 
+def images_snapshot(world):
+    """{file name: digest of the data `images[name]` answers} - None for an image that is not loaded yet (peek:
+    reading it would load it)"""
+    images = world.font.images
+    out = {}
+    for n in images.fileNames:
+        d = images._data[n]
+        if d["data"] is not None:
+            out[n] = d["digest"]
+        else:
+            # not loaded: what `images[n]` would answer is the file of the UFO, read here without defcon
+            out[n] = None
+            try:
+                import hashlib
+                with open(os.path.join(world.font.path, "images", n), "rb") as f:
+                    out[n] = hashlib.md5(f.read()).digest()
+            except Exception:
+                pass
+    return out
+
+
+def lifecycle_oracle(world, op, status, before, after, events):
+    """sentences 2 and 3 for the life cycle of a file name in the image set, judged on what `name in images` and
+    `images[name]` answer before and after the operation: a name that enters the set is announced by
+    ImageSet.ImageWillBeAdded (delivered while `in` is still False) then ImageSet.ImageAdded (`in` True) - whether
+    it was never there, deleted and saved, or deleted and still scheduled for deletion, whatever the data; a name
+    that leaves it by ImageWillBeDeleted (`in` True) then ImageDeleted (`in` False); a name that stays with other
+    data by ImageSet.ImageChanged; and nothing else is announced."""
+    site = op_name(op)
+    viol = []
+    images = world.font.images
+    told = {}
+    for e in events:
+        if e.sender is images and e.name.startswith("ImageSet.Image") and not e.error:
+            told.setdefault(e.subject, []).append((e.name, e.obs))
+    for n in sorted(set(before) | set(after) | set(told), key=str):
+        was, now = n in before, n in after
+        if not was and now:
+            want = [("ImageSet.ImageWillBeAdded", False), ("ImageSet.ImageAdded", True)]
+        elif was and not now:
+            want = [("ImageSet.ImageWillBeDeleted", True), ("ImageSet.ImageDeleted", False)]
+        elif was and now and before[n] is not None and after[n] is not None and before[n] != after[n]:
+            want = [("ImageSet.ImageChanged", True)]
+        elif was and now and (before[n] is None or after[n] is None) and before[n] != after[n]:
+            continue            # loaded by the operation: whether the data changed is not known
+        else:
+            want = []
+        got = told.get(n, [])
+        if got != want:
+            kind = ("added" if not was and now else "deleted" if was and not now else "changed" if want else "unchanged")
+            viol.append(dict(clause="C08/image-lifecycle", signature="C08/image-lifecycle/%s/%s" % (kind, site),
+                             op=op, status=status, notification=want[0][0] if want else (got[0][0] if got else None),
+                             name=repr(n), in_before=was, in_after=now, expected=repr(want), delivered=repr(got)))
+    return viol[:1]
+
+
+def order_oracle(world, op, status, before, events):
+    """sentence 3 for Font.GlyphOrderChanged: whenever `font.glyphOrder` answers differently after an operation than
+    before it, the font has posted Font.GlyphOrderChanged, and the chain of its deliveries leads from the order
+    before to the order after (each delivery's own old and new value is judged by `oracle`).  A direct write into
+    `font.lib` is not an operation of the font (see ASSUMPTIONS)."""
+    from c08_world import _norm_order
+    if len(op) > 1 and isinstance(op[1], list) and op[1][0] == "lib":
+        return []
+    font = world.font
+    after = font.glyphOrder
+    cur = list(before)
+    n = 0
+    for e in events:
+        if e.name == "Font.GlyphOrderChanged" and e.sender is font and not e.error and e.has_payload:
+            cur = _norm_order(e.new)
+            n += 1
+    if cur != after:
+        return [dict(clause="C08/documented-not-posted",
+                     signature="C08/documented-not-posted/Font.GlyphOrderChanged/%s" % op_name(op),
+                     op=op, status=status, notification="Font.GlyphOrderChanged", order_before=repr(before)[:200],
+                     order_after=repr(after)[:200], deliveries=n, last_announced=repr(cur)[:200])]
+    return []
+
+
 def held_oracle(op, bracket, events):
     """inside / at the end of a USER hold bracket only this is claimed: an old value that is delivered is a value
     the getter had at the start of some operation of the bracket, or the new value of an earlier delivery"""
@@ -500,6 +611,43 @@ def gen_contour_spec(rng, ids=None):
             i = rng.randrange(4)
             pts[i] = pts[i][:3] + [cid]
     return {"id": cid, "points": pts, "owned": rng.random() < 0.3}
+
+
+DEGENERATE = ["lone-point", "lone-move", "stroke", "two-closed", "collinear", "collinear-open", "figure-eight", "bow-tie-4",
+              "back-and-forth"]
+
+
+def gen_degenerate_contour(rng, shape=None):
+    """a contour that encloses no area (`clockwise` = area < 0 answers False whatever the order of its points): a lone
+    point, an open two-point stroke, a closed two-point contour, collinear points, a symmetric figure eight / bow tie,
+    a path that returns over itself.  Same spec format as gen_contour_spec, no identifiers."""
+    shape = shape or rng.choice(DEGENERATE)
+    ox, oy = rng.randint(-50, 200), rng.randint(-50, 200)
+    a, b = rng.randint(5, 120), rng.randint(5, 120)
+    L = "line"
+    if shape == "lone-point":
+        pts = [[ox, oy, L]]
+    elif shape == "lone-move":
+        pts = [[ox, oy, "move"]]
+    elif shape == "stroke":
+        pts = [[ox, oy, "move"], [ox + a, oy + b, L]]
+    elif shape == "two-closed":
+        pts = [[ox, oy, L], [ox + a, oy + b, L]]
+    elif shape == "collinear":
+        pts = [[ox, oy, L], [ox + a, oy + b, L], [ox + 3 * a, oy + 3 * b, L]]
+    elif shape == "collinear-open":
+        pts = [[ox, oy, "move"], [ox + a, oy, L], [ox + 2 * a, oy, L], [ox + 5 * a, oy, L]]
+    elif shape == "figure-eight":
+        # two triangles of equal area and opposite direction that meet in the crossing point
+        pts = [[ox, oy, L], [ox + 2 * a, oy + 2 * b, L], [ox + 2 * a, oy, L], [ox, oy + 2 * b, L]]
+    elif shape == "bow-tie-4":
+        pts = [[ox, oy, L], [ox + a, oy + b, L], [ox, oy + b, L], [ox + a, oy, L]]
+    else:
+        pts = [[ox, oy, L], [ox + a, oy + b, L], [ox + a + b, oy + a, L], [ox + a, oy + b, L]]
+    if rng.random() < 0.3 and len(pts) > 2 and pts[0][2] != "move":
+        k = rng.randrange(len(pts))
+        pts = pts[k:] + pts[:k]
+    return {"id": None, "points": pts, "owned": rng.random() < 0.3, "shape": shape}
 
 
 def gen_index(rng, hi=3):
@@ -647,9 +795,9 @@ def gen_op(rng, focus=None):
                         "decomposeComponent", "decomposeAllComponents", "copyDataFromGlyph", "move", "removeForeign",
                         "drawContour"])
         if m == "insertContour":
-            return ["call", g, m, gen_index(rng), gen_contour_spec(rng)]
+            return ["call", g, m, gen_index(rng), gen_degenerate_contour(rng) if rng.random() < 0.12 else gen_contour_spec(rng)]
         if m == "drawContour":
-            return ["call", g, m, gen_contour_spec(rng)]
+            return ["call", g, m, gen_degenerate_contour(rng) if rng.random() < 0.12 else gen_contour_spec(rng)]
         if m == "insertComponent":
             return ["call", g, m, gen_index(rng), rng.choice(["A", "B", "C", "nope"]),
                     [1, 0, 0, 1, rng.randint(-20, 20), rng.randint(-20, 20)],
@@ -864,6 +1012,57 @@ def scenario(rng, kind):
         return [["setitem", ["images"], "i1.png", 1], ["setitem", ["images"], "i1.png", 1], ["setitem", ["images"], "i1.png", 2],
                 ["delitem", ["images"], "i1.png"], ["setitem", ["images"], "i1.png", 2], ["delitem", ["images"], "i1.png"],
                 ["setitem", ["images"], "i1.png", 3], ["delitem", ["images"], "nope.png"]]
+    if kind == "image-lifecycle":
+        # one file name through absent / present / scheduled for deletion / set again, with and without a save in
+        # between, the data that comes back being the deleted one or another one; a second name alongside
+        im = ["images"]
+        n, m = rng.sample(fg.IMAGE_NAMES, 2)
+        d1, d2 = rng.sample([1, 2, 3, 4], 2)
+        ops = [["setitem", im, n, d1], ["delitem", im, n]]
+        for how in rng.sample(["same-back", "other-back", "saved-then-same", "twice", "other-name"], rng.randint(2, 4)):
+            if how == "same-back":
+                ops += [["setitem", im, n, d1], ["setitem", im, n, d1], ["delitem", im, n]]
+            elif how == "other-back":
+                ops += [["setitem", im, n, d2], ["setitem", im, n, d1], ["delitem", im, n]]
+            elif how == "saved-then-same":
+                ops += [["save"], ["setitem", im, n, d1], ["save"], ["delitem", im, n], ["setitem", im, n, d1], ["delitem", im, n]]
+            elif how == "twice":
+                ops += [["delitem", im, n], ["setitem", im, n, d2], ["delitem", im, n], ["delitem", im, n]]
+            else:
+                ops += [["setitem", im, m, d2], ["delitem", im, m], ["setitem", im, n, d1], ["setitem", im, m, d2],
+                        ["delitem", im, n]]
+        return ops + [["setitem", im, n, d1]]
+    if kind == "implicit-order":
+        # a font that STORES a glyph order keeps it in step with its layers: glyphs created, renamed, deleted,
+        # inserted over a name - in the default layer and in another one
+        l, l2 = ["layer", li], ["layer", 1 - li]
+        a, b, c = rng.sample(["new1", "new2", "zz", "a.alt", "f_i"], 3)
+        ops = [["call", l, "newGlyph", a], ["call", l, "newGlyph", b],
+               ["set", ["font"], "glyphOrder", rng.choice([[b, a], [b, "ghost", a], [a, b, "A", "B"]])]]
+        steps = {
+            "new": [["call", l, "newGlyph", c]],
+            "font-new": [["call", ["font"], "newGlyph", c]],
+            "rename": [["set", ["glyph", li, a], "name", c]],
+            "rename-onto": [["set", ["glyph", li, a], "name", b]],
+            "delete": [["delitem", l, b]],
+            "delete-last-copy": [["call", l2, "newGlyph", b], ["delitem", l, b], ["delitem", l2, b]],
+            "insert-over": [["call", l, "insertGlyph", li, a, b]],
+            "insert-new": [["call", l, "insertGlyph", li, a, c]],
+            "listed-again": [["call", l, "newGlyph", a]],
+        }
+        for k in rng.sample(sorted(steps), rng.randint(3, 6)):
+            ops += steps[k]
+        return ops + [["set", ["font"], "glyphOrder", rng.choice([None, []])], ["call", l, "newGlyph", "space"]]
+    if kind == "degenerate-contours":
+        # contours without area: the direction cannot flip; what is announced must be what `clockwise` answers
+        c = ["contour", li, gi, 0]
+        ops = []
+        for shape in rng.sample(DEGENERATE, rng.randint(2, 4)):
+            ops += [["call", g, "insertContour", 0, gen_degenerate_contour(rng, shape)], ["call", c, "reverse"]]
+            ops += rng.sample([["set", c, "clockwise", True], ["set", c, "clockwise", False], ["call", c, "reverse"],
+                               ["call", c, "move", 3, -4], ["set", c, "clockwise", True]], rng.randint(2, 4))
+        return ops + [["call", g, "insertContour", 0, gen_contour_spec(rng, ids=False)], ["set", c, "clockwise", True],
+                      ["set", c, "clockwise", False]]
     if kind == "font-guidelines":
         f = ["font"]
         return [["call", f, "insertGuideline", 0, gen_guideline_dict(rng), "dict"],
@@ -908,7 +1107,8 @@ def scenario(rng, kind):
 
 
 SCENARIOS = ["margins", "undo-delete", "rejected-insert", "rename-back", "delete-recreate", "clear-all", "layers", "hold-bracket",
-             "edit-read-save", "image", "contours", "dicts", "images", "font-guidelines", "base-follow"]
+             "edit-read-save", "image", "contours", "dicts", "images", "font-guidelines", "base-follow",
+             "image-lifecycle", "implicit-order", "degenerate-contours"]
 
 
 def gen_case(rng, maxops):
@@ -1019,12 +1219,18 @@ def neighbourhood(case, step, rng):
                 yield dict(case, ops=prefix + [["set", tgt, attr, v], ["set", tgt, attr, v]])
     if kind in ("glyph", "anchor", "guideline", "component", "contour", "image"):
         g = ["glyph", tgt[1], tgt[2]]
-        for sc in ("margins", "undo-delete", "clear-all", "rename-back", "contours", "image"):
+        for sc in ("margins", "undo-delete", "clear-all", "rename-back", "contours", "image", "degenerate-contours"):
             sops = scenario(rng, sc)
             for o in sops:
                 if len(o) > 1 and isinstance(o[1], list) and o[1][0] in ("glyph", "contour", "image") and len(o[1]) >= 3:
                     o[1][1], o[1][2] = g[1], g[2]
             yield dict(case, ops=prefix + sops)
+    if kind in ("images", "image"):
+        for _ in range(3):
+            yield dict(case, ops=prefix + scenario(rng, "image-lifecycle"))
+    if kind in ("layer", "font", "glyph", "layers"):
+        for _ in range(3):
+            yield dict(case, ops=prefix + scenario(rng, "implicit-order"))
     for origin in ("memory", "disk", "saved"):
         if origin != case.get("origin"):
             yield dict(case, origin=origin, ops=prefix)
@@ -1116,11 +1322,15 @@ def run_world(case, per_op=None):
             snap = w.snapshot(margins_of)
             members = membership_snapshot(w)
             relays = relay_snapshot(w)
+            images_before = images_snapshot(w)
+            order_before = list(w.font.glyphOrder)
             box = {}
 
             def mid(details, op=op, box=box):
                 box["ctx"] = ad.before(op, details)
                 box["fctx"] = ad.follow_before(op, details)
+                box["octx"] = ad.order_before(op, details)
+                box["wctx"] = ad.winding_before(op, details)
             status, details = w.do(op, mid)
             events = list(w.rec.events)
             late = list(w.late.events)
@@ -1135,6 +1345,31 @@ def run_world(case, per_op=None):
                 if len(fol[1][0]) > 1:
                     stats["follow.posted"] = stats.get("follow.posted", 0) + 1
                 line, mout = [Atom("both"), line, fol[0]], [Atom("both"), mout, fol[1]]
+            # the same operation as the other models of the slice see it
+            extra = []
+            if case.get("static") and step == 0:
+                # the getter table of the Lean model against the table the observers of this run were built from
+                extra.append(([Atom("getter-table")], W.table_rendering()))
+            o_line = ad.order_after(op, box.get("octx"), status, events)
+            if o_line is not None:
+                stats["order." + str(o_line[0][1][0])] = stats.get("order." + str(o_line[0][1][0]), 0) + 1
+                if o_line[1][0]:
+                    stats["order.posted"] = stats.get("order.posted", 0) + 1
+                extra.append(o_line)
+            w_line = ad.winding_after(op, box.get("wctx"), status, details)
+            if w_line is not None:
+                stats["winding.lines"] = stats.get("winding.lines", 0) + 1
+                if w_line[1][1]:
+                    stats["winding.zero-area"] = stats.get("winding.zero-area", 0) + 1
+                extra.append(w_line)
+            if extra:
+                if line[0] == Atom("both"):
+                    line, mout = [Atom("multi"), line[1], line[2]], [Atom("multi"), mout[1], mout[2]]
+                else:
+                    line, mout = [Atom("multi"), line], [Atom("multi"), mout]
+                for l_, o_ in extra:
+                    line.append(l_)
+                    mout.append(o_)
             lines.append(line)
             name = op_name(op)
             stats["op." + name] = stats.get("op." + name, 0) + 1
@@ -1159,6 +1394,16 @@ def run_world(case, per_op=None):
             else:
                 vs = oracle(w, op, status, snap, members, events) + oracle(w, op, status, snap, members, late)
                 vs += relay_oracle(op, status, relays, relay_snapshot(w), members, events, stats)
+                images_after = images_snapshot(w)
+                if images_after != images_before or any(e.name.startswith("ImageSet.Image") for e in events):
+                    stats["lifecycle.judged"] = stats.get("lifecycle.judged", 0) + 1
+                vs += lifecycle_oracle(w, op, status, images_before, images_after, events)
+                vs += lifecycle_oracle(w, op, status, images_before, images_after, late)
+                if list(w.font.glyphOrder) != order_before:
+                    stats["order.changed"] = stats.get("order.changed", 0) + 1
+                    if op[0] != "set" or op[2] != "glyphOrder":
+                        stats["order.changed-implicitly"] = stats.get("order.changed-implicitly", 0) + 1
+                vs += order_oracle(w, op, status, order_before, events)
             for x in vs:
                 x["step"] = step
             viols.extend(vs)
